@@ -285,6 +285,24 @@ def crash_event(cls_name, d: Path, name: str, km, tk, frozen: Dict[str, str], cv
             sub2 = try_open(IH5Record, committed_files, km, tk)
             if not sub2[0] or sub2[1] != sub_vw:
                 sub_ok, sub_vw, sub_exc = False, sub2[1], "after recovery attempt: " + sub2[3]
+    # ... and a writer that only knows an older state (all but the newest committed container): the place of its
+    # next patch is taken by a committed file, so it must be refused, and in no case may it damage anything
+    ordered = sorted(committed_files, key=lambda f_: (protolib.parse_fn(f_.name) or ["", 0])[1])
+    if len(ordered) >= 2 and frozen_ok:
+        gc.collect()
+        try:
+            r_ = CLS[cls_name](list(ordered[:-1]), "r+")
+            r_.close(commit=False)
+        except Exception:
+            pass
+        gc.collect()
+        changed = [f for f, dig in frozen.items()
+                   if not (d / f).exists() or hashlib.sha256((d / f).read_bytes()).hexdigest() != dig]
+        frozen_ok = not changed
+        if frozen_ok:
+            sub3 = try_open(IH5Record, committed_files, km, tk)
+            if not sub3[0] or sub3[1] != sub_vw:
+                sub_ok, sub_vw, sub_exc = False, sub3[1], "after a stale writer's attempt: " + sub3[3]
     return {"op": "crash_probe", "what": what, "cls": cls_name, "frozen_ok": frozen_ok,
             "sub_ok": sub_ok, "sub_vw": sub_vw, "sub_exc": sub_exc,
             "full_ok": full_ok, "full_vw": full_vw, "full_committed": full_comm, "full_exc": full_exc,
